@@ -316,8 +316,6 @@ val lstrip : char list -> char list
 
 val rstrip : char list -> char list
 
-val strip : char list -> char list
-
 val digit_val : char -> z option
 
 val digit_char : z -> char
@@ -804,6 +802,12 @@ val csv_row_cells :
 val csv_rows :
   char list list list -> char list list -> nat -> (char list * char list
   list) list -> z list -> ((char list * char list list) list * z list) option
+
+val is_crlf : char -> bool
+
+val lstrip_lines : char list -> char list
+
+val csv_strip : char list -> char list
 
 val csv_parse : char list -> char list -> char list -> trace presult
 
